@@ -14,4 +14,4 @@ for c in $checks; do
   echo "$name: check $c -> $( [ $nv -gt 0 ] && echo CAUGHT || echo missed ) ($nv violation lines) $(echo "$out" | grep -m1 VIOLATION | sed 's/.*replay=//' | xargs -r basename)"
 done
 git -C /repo worktree remove --force $wt
-rm -rf /verif/build/altevidence/$(basename $wt)
+rm -rf /verif/build/alt/$(basename $wt)
